@@ -80,6 +80,9 @@ def run(ck):
     ck.rule("R1", "each operator is translated to the z3 primitive of its reference meaning", floor=18)
     ck.rule("R2", "every Expr class is translated; slice/compose/cond shapes", floor=7)
     ck.rule("R3", "memory bytes are concatenated in the configured byte order", floor=1)
+    ck.rule("R4", "the expression helpers the translation relies on (signExtend / zeroExtend / msb in _sdivC and the operator table) build the operator they are named after", floor=3)
+    from rules._exprhelpers import extension_helper_rules
+    extension_helper_rules(ck, "R4")
     ck.rule("TC", "the translation memo table is private to the translator object, keyed by the expression itself, and filled by the class's own handler", floor=2)
     from rules._transcache import translator_cache_rules
     translator_cache_rules(ck, "TC")
